@@ -416,7 +416,7 @@ func runC14(c *core.Ctx) {
 	}
 	if c.Thorough() {
 		sets = append(sets, kset{"4 peers", func() []*c14Conn {
-			return []*c14Conn{mk(6, 5000, 8081, 1, 1, []int{1}), mk(7, 5000, 8081, 2, 1, []int{1}), mk(8, 5000, 8081, 3, 1, []int{1}), mk(9, 5000, 8081, 4, 0, []int{})}
+			return []*c14Conn{mk(6, 5000, 8081, 1, 1, []int{1}), mk(7, 5000, 8081, 2, 0, []int{}), mk(8, 5000, 8081, 3, 0, []int{}), mk(9, 5000, 8081, 4, 0, []int{})}
 		}})
 	}
 	for _, ks0 := range sets {
@@ -436,7 +436,7 @@ func runC14(c *core.Ctx) {
 						lens = append(lens, cn.nframes())
 					}
 					interleavings(lens, func(order []int) {
-						if order[0] != pa || order[1] != pb {
+						if order[0] != pa || order[1] != pb || c.Stopping() {
 							return
 						}
 						conns := ks.conns()
